@@ -55,9 +55,11 @@ def _params(name):
     return p
 
 
-def make_model(name, inst=None):
+def make_model(name, inst=None, retrack=False):
     """An instance (optionally a NAMED instance) of the named model whose initial occupancies are all
-    equal, so that the scripted rng.random() values select each node's initial compartment."""
+    equal, so that the scripted rng.random() values select each node's initial compartment.
+    retrack: build() ends by asking AGAIN for every locus it already has, catching the documented rejection ("Locus ...
+    already exists"): the rejected calls must leave no trace, the loci the process reports stay the live ones."""
     import epydemic as E
     from epydemic.opinion_model import MultiCompartmentedEdgeLocus
     if name in SYNTH:
@@ -77,6 +79,8 @@ def make_model(name, inst=None):
                         self.trackEdgesBetweenCompartments(cs[sp[1]], cs[sp[2]], name=nm)
                     else:
                         self.addLocus(nm, MultiCompartmentedEdgeLocus(nm, cs[sp[1]], [cs[j] for j in sp[2]]))
+                if retrack:
+                    _retrack(self)
         return Synth()
     base = getattr(E, name)
 
@@ -86,8 +90,27 @@ def make_model(name, inst=None):
             cs = self.compartments()
             for c in cs:
                 self.changeCompartmentInitialOccupancy(c, 1.0 / len(cs))
+            if retrack:
+                _retrack(self)
     Uniform.__name__ = name
     return Uniform(inst) if inst is not None else Uniform()
+
+
+def _retrack(m):
+    import epydemic as E
+    from epydemic.opinion_model import MultiCompartmentedEdgeLocus
+    for nm, l in list(m.loci().items()):
+        try:
+            if isinstance(l, MultiCompartmentedEdgeLocus):
+                m.addLocus(nm, MultiCompartmentedEdgeLocus(nm, l._left, list(l._rights)))
+            elif isinstance(l, E.CompartmentedEdgeLocus):
+                m.trackEdgesBetweenCompartments(l._left, l._right, name=nm)
+            elif isinstance(l, E.CompartmentedNodeLocus):
+                m.trackNodesInCompartment(l._compartment, name=nm)
+            else:
+                m.addLocus(nm)
+        except Exception:
+            pass
 
 
 _K = {}
@@ -151,7 +174,7 @@ class View:
             for (ah, lh, eh, rh) in hs:
                 owner = {id(h.__self__) for h in (ah, lh, eh, rh)}
                 assert len(owner) == 1
-                ixs.append(idx[owner.pop()])
+                ixs.append(idx.get(owner.pop(), -1))      # -1: handlers of a locus the process does not report
             if c in self.code:
                 self.effects[c] = ixs
             else:
@@ -268,14 +291,14 @@ def used_network(name, g, dynamics):
 class Live(View):
     """A single model instance set up on a real dynamics."""
 
-    def __init__(self, name, nodes, edges, init, dynamics='stochastic', seed=1, used=False):
+    def __init__(self, name, nodes, edges, init, dynamics='stochastic', seed=1, used=False, retrack=False):
         import epydemic as E
         g = networkx.Graph()
         g.add_nodes_from(nodes)
         g.add_edges_from([tuple(e) for e in edges])
         if used:
             g = used_network(name, g, dynamics)
-        m = make_model(name)
+        m = make_model(name, retrack=retrack)
         k = n_compartments(name)
         script = [(i + 0.5) / k for i in init]
         self.oracle = install(Oracle(seed=seed, script={'random': script}))
@@ -676,6 +699,8 @@ class H(Harness):
                 'ops': ops, 'stream': stream, 'dynamics': rnd.choice(['stochastic', 'synchronous']),
                 # one case in five starts from the network an earlier experiment left behind (attributes and all)
                 'used': rnd.random() < 0.2,
+                # one case in six: build() repeats its tracking calls and catches the rejections
+                'retrack': rnd.random() < 0.17,
                 # one case in six is followed by the set-up of the next experiment on the same Dynamics object
                 'again': rnd.random() < 0.17}
 
@@ -849,7 +874,7 @@ class H(Harness):
     # ---------------------------------------------------------------- execution
     def _run(self, case, ops):
         lv = Live(case['model'], case['nodes'], [tuple(e) for e in case['edges']], case['init'], case.get('dynamics', 'stochastic'), used=bool(case.get('used')),
-                  seed=case.get('seed', 1))
+                  seed=case.get('seed', 1), retrack=bool(case.get('retrack')))
         U = case['universe']
         d0 = lv.dump(U)
         dumps = []
